@@ -321,5 +321,7 @@ FIXED_LOG = [
  "fixed: property=C02 dcd1581 bare NEXT after an explicit NEXT of an inner loop was given the inner loop's variable",
  "fixed: property=C07 346ca10 HCIRCLE with omitted colour printed a hoisted call inside the argument list (10 HCIRCLE(1,2),3,,INT(A))",
  "fixed: property=C13 e1a8e18 a comment with an odd number of quotes left all STRING<<>> placeholders of the bundle unreplaced (10 HDRAW\"\":REM \")",
+ "fixed: property=C08 ee8d520 with CR or CRLF line ends a REM swallowed all following lines, and unquoted DATA items / open string literals ran across line ends (10 REM HELLO\r20 CLS)",
+ "fixed: property=C08 a19f5d7 a trailing NUL after a final REM / unquoted DATA item / open string literal was copied into the output (10 REM HELLO\x00)",
  "fixed: property=C20 7a287a6 ecb_instr never assigned its result (wrong substring length, loop one short, no 0 for no match)"
 ]
